@@ -46,6 +46,10 @@ def gen(rng, tier):
         ops.append([round(rng.uniform(0.5, dl - 15), 2), 'jump', 30])
     if rng.random() < 0.3:
         ops.append([round(rng.uniform(0.5, dl - 15), 2), 'cancel_other'])
+    if rng.random() < 0.25:
+        # a cancel request which names no pilot at all (what a pilot manager
+        # without pilots publishes on close)
+        ops.append([round(rng.uniform(0.5, dl - 15), 2), 'cancel_none'])
     ops.sort()
     return {'mode': 'b', 'runtime': runtime, 'ops': ops, 'kinds': [kind],
             'delay_max': rng.choice([0.0, 0.05]),
@@ -144,6 +148,11 @@ def run(seed, scenario, trace=None, tier='quick'):
                     pub.put(rpc.CONTROL_PUBSUB, {
                         'cmd': 'cancel_pilots',
                         'arg': {'pmgr': 'pmgr.0000', 'uids': ['pilot.0007']}})
+                elif op[1] == 'cancel_none':
+                    sim.fault('cancel_none')
+                    pub.put(rpc.CONTROL_PUBSUB, {
+                        'cmd': 'cancel_pilots',
+                        'arg': {'pmgr': 'pmgr.0001', 'uids': []}})
                 elif op[1] == 'terminate':
                     st['term_at'] = sim.now
                     sim.fault('terminate')
